@@ -399,7 +399,7 @@ fn kusize<A: Cm, const K: usize>(req: &UReq) -> R<URes> {
             let wins: Vec<&SeqSlice<A>> = sl.windows(K).take(n + 2).collect();
             let eq_windows = raw.iter().zip(wins.iter()).map(|(k, w)| *k == *w && *k == **w).collect();
             let exp: Vec<String> = if n >= K { spec.codes.windows(K).map(|w| sy.text(w)).collect() } else { vec![] };
-            let laws = if n <= 400 { crate::oracle::check_iter_laws(&|| sl.kmers::<K>().map(|k| k.to_string()), &exp, "kmers_laws", &[]).err() } else { None };
+            let laws = if n <= 400 { crate::oracle::check_iter_laws(&|| sl.kmers::<K>(), &|k: Kmer<A, K>| k.to_string(), &exp, "kmers_laws", &[]).err() } else { None };
             URes::Iter(IterRes {
                 laws,
                 items_usize: raw.iter().map(|k| usize::from(k)).collect(),
